@@ -352,8 +352,8 @@ def mapGet (T : Tables) (k : Str) (dflt : PyVal) (e : El) : PyVal × El :=
   if k = classK then (.str e.className, e)
   else if k = styleK then (getitem T k e, e)
   else
-    let (ks, e') := keys e
-    if ks.contains k then (getitem T k e', e') else (dflt, e')
+    let r := keys e
+    if r.1.contains k then (getitem T k r.2, r.2) else (dflt, r.2)
 
 /-! ### `AdvancedTag` accessors -/
 
@@ -473,7 +473,11 @@ def dotSet (T : Tables) (name : Str) (v : DotVal) (e : El) : Outcome × El :=
   | none => (.unsupported, e)
   | some L =>
     if L.validated then (.unsupported, e)
-    else if L.binStr then setAttribute T L.attr (some v.boolString) e
+    else if L.binStr then
+      -- `self.setAttribute(name, value); return self.getAttribute(name)`: the read back synchronises
+      match setAttribute T L.attr (some v.boolString) e with
+      | (.ok, e') => (.ok, (getAttribute T L.attr .none e').2)
+      | r => r
     else if L.bin then
       if v.truthy then setAttribute T L.attr (some []) e else (.ok, removeAttribute L.attr e)
     else setAttribute T L.attr (some v.tostr) e
@@ -485,11 +489,11 @@ def boolOfString : PyVal → Bool
   | .bool b => b
   | .style _ => true
 
-/-- `tag.<name>` for a linked name without a special-value rule -/
+/-- `tag.<name>` for a linked name without a special-value rule (`none` = not modelled here) -/
 def dotGet (T : Tables) (name : Str) (e : El) : Option PyVal × El :=
   if name = classNameK then (some (.str e.className), e)
   else match aget name T.links with
-  | none => (none, e)
+  | none => (some .none, e)          -- not a linked name: a miss on the Python object, `None`
   | some L =>
     if L.special then (none, e)
     else if L.binStr then
